@@ -80,10 +80,14 @@ static const ClassTpl CLASSES[] = {
     {"KBPsK", "BP", ""}, {"KBPsK", "BPP", ""}, {"KBPsKB", "BP", "B"}, {"KBPsKB", "BPP", "B"}, {"KRKP", "R", "P"}, {"KQKP", "Q", "P"},
     {"KQKRPs", "Q", "RP"}, {"KQKRPs", "Q", "RPP"}, {"KmmKm", "BB", "N"}, {"KmmKm", "BN", "B"}, {"KmmKm", "NN", "B"}, {"KmmKm", "BB", "B"},
     {"KXK", "Q", ""}, {"KXK", "R", ""}, {"KXK", "QR", ""}, {"KXK", "BB", ""}, {"KXK", "RP", ""}, {"KXK", "QQQQQQQQQ", ""},
-    // the most material one side can own (eight promotions on top of the original pieces), alone and against material: bounds
+    {"general", "RP", "RP"}, {"general", "QPP", "RBP"}, {"general", "NPPP", "BPP"}, {"general", "RRPP", "QP"}, {"general", "PP", "P"}, {"general", "PPP", "PP"},
+};
+
+// the most material one side can own (eight promotions on top of the original pieces), alone and against material: for the
+// bounds of the evaluation only (kept out of CLASSES: the search pools draw their sparse positions from that list)
+static const ClassTpl HEAVY[] = {
     {"KXK", "QQQQQQQQQRRBBNN", ""}, {"KXK", "QQQQQQQQQRR", ""}, {"KXK", "QQQQQQQRRBBN", ""}, {"KXK", "QRRRRRRRRRRBBNN", ""}, {"KXK", "QRRBBNNNNNNNNNN", ""},
     {"general", "QQQQQQQQQRRBBNN", "P"}, {"general", "QQQQQQQQQRRBBNN", "QRRBBNN"}, {"general", "QQQQQRRBBNNPPPP", "QRRBBNNPPPPPPPP"},
-    {"general", "RP", "RP"}, {"general", "QPP", "RBP"}, {"general", "NPPP", "BPP"}, {"general", "RRPP", "QP"}, {"general", "PP", "P"}, {"general", "PPP", "PP"},
 };
 
 // random legal-looking placement of a material class; returns "" if the attempt is not a legal position
@@ -279,7 +283,9 @@ int cmd_eval_mirror(const Args& a)
             emit(p, "game");
         }
     }
-    for (const ClassTpl& c : CLASSES)
+    std::vector<ClassTpl> all_classes(std::begin(CLASSES), std::end(CLASSES));
+    all_classes.insert(all_classes.end(), std::begin(HEAVY), std::end(HEAVY));
+    for (const ClassTpl& c : all_classes)
         for (int k = 0; k < per_class; ++k)
         {
             std::string fen = random_class_fen(c, rng() % 2, rng, k % 2 == 1);
@@ -340,7 +346,9 @@ int cmd_eval_pure(const Args& a)
             if (rng() % 64 == 0) { sc.clear(); fprintf(o, "{\"e\":\"clear\"}\n"); }
         }
     }
-    for (const ClassTpl& c : CLASSES)
+    std::vector<ClassTpl> all_classes(std::begin(CLASSES), std::end(CLASSES));
+    all_classes.insert(all_classes.end(), std::begin(HEAVY), std::end(HEAVY));
+    for (const ClassTpl& c : all_classes)
         for (int k = 0; k < per_class; ++k)
         {
             std::string fen = random_class_fen(c, rng() % 2, rng);
